@@ -331,6 +331,7 @@ class Gen:
                     if g.random() < 0.6: toks[j] = ['b', g.choice(LONG_BARE)] if g.random() < 0.5 else ['q', g.choice(LONG_QUOTED)]
                 if len(toks) == 1 or g.random() < 0.3: toks += [['b', g.choice(LONG_BARE)] for _ in range(g.randint(1, 12))]
             if len(toks) == 2 and g.random() < self.p_bracketish: toks[1] = ['b', g.choice(['[0-9]', '[abc]', '[x]', '[a-z]+', '[', ']', '[]', '[=', 'x[1]'])]     # unquoted arguments that only look like bracket arguments
+            if len(toks) == 2 and g.random() < 0.04: toks[1] = ['q', g.choice(['first\\nsecond', 'tab\\there', 'cr\\rlf\\n'])]      # escape sequences stay as written (two characters each)
             if len(toks) == 2 and g.random() < self.p_cont: toks[1] = ['q', g.choice(['Hello, \\\nworld', 'a\\\n   b\\\nc', '\\\n', 'x \\\n'])]     # quoted line continuations
             if len(toks) == 2 and g.random() < 0.04: toks[1] = g.choice([['b', '--------'], ['q', '===='], ['b', '....'], ['q', '~~~~~']])   # a value that is reST markup (K10)
             if len(toks) >= 2 and g.random() < 0.1:      # the cache form of set(): to CMinx the keywords are values like any other
